@@ -46,6 +46,12 @@ def gen_recipe(rng, fmt, tier="quick"):
         "lon0": rng.choice([150.0, 0.0, 170.5, 359.0 - 6, -20.0]), "lat0": rng.choice([-30.0, 0.0, 45.25, -75.0]),
         "dlon": rng.choice([0.25, 0.5, 1.0]), "dlat": rng.choice([0.25, 0.5, 1.0]),
     }
+    if rng.random() < 0.08 and r["dir"]["dir0"] == 0.0 and base != "funwave":
+        r["dir"]["north360"] = True
+    if rng.random() < 0.25:
+        r["lat_desc"] = True
+    if rng.random() < 0.15:
+        r["lon_desc"] = True
     if rng.random() < 0.1:
         r["dir_dtype"] = rng.choice(["int64", "float32"])
     if rng.random() < 0.08 and base in ("json", "netcdf", "ww3"):
@@ -90,6 +96,16 @@ def gen_recipe(rng, fmt, tier="quick"):
         r["nd"] = rng.choice([4, 6, 8, 9, 12, 24, 36])
         r["dir"]["order"] = rng.choice(["asc", "asc", "rot", "shuf"])
         r["dtype"] = "float64"
+    has_site = any(k == "site" for k, _ in r["dims"])
+    if base in ("swan", "octopus") and has_site:
+        r["lonlat"] = rng.choice(["coords", "coords", "vars", "absent_args", "absent"])
+        if base == "swan" and rng.random() < 0.3:
+            r["read_default"] = True      # read without as_site: sites that happen to form a grid come back gridded
+        if base == "swan" and rng.random() < 0.15:
+            # sites on a regular grid
+            r["site_grid"] = True
+    elif base in ("json", "netcdf", "ww3") and has_site:
+        r["lonlat"] = rng.choice(["coords", "vars"])
     npos = int(np.prod([n for _, n in r["dims"]] or [1]))
     if base in ("swan", "json", "netcdf", "ww3", "octopus") and npos > 0 and rng.random() < 0.3:
         r["data"]["zero_at"] = rng.randrange(npos)
@@ -109,7 +125,7 @@ def gen_plan(rng, tier="quick"):
         if kind == "write" or not files:
             fmt = rng.choice(["swan", "swan", "swan_gz", "octopus", "octopus_gz", "json", "ww3", "netcdf", "funwave"])
             slot = rng.randrange(nfiles)
-            name = f"f{slot}.{EXT[fmt]}"
+            name = rng.choice([f"f{slot}.{EXT[fmt]}", f"f{slot}.{EXT[fmt]}", f"run.v1.2.f{slot}.{EXT[fmt]}", f"a.gz.f{slot}.{EXT[fmt]}"])
             kw = {}
             recipe = gen_recipe(rng, fmt, tier)
             nt = dict((k, n) for k, n in recipe["dims"]).get("time", 1)
@@ -145,12 +161,35 @@ def shape(plan):
 
 # =======================================================================================
 def expected_dataset(recipe, fmt):
+    """(dataset to write, extra writer kwargs, (lon, lat) expected per site or None)."""
     r = dict(recipe)
     ds = D.make_dataset(r, winds=fmt.startswith("octopus"))
     nd = r.get("round_freq")
     if nd is not None:
-        ds = ds.assign_coords(freq=np.round(ds["freq"].values, nd))
-    return ds
+        ds = ds.assign_coords(freq=np.round(ds["freq"].values, nd).astype(ds["freq"].dtype))
+    kw, lonlat = {}, None
+    if "site" in ds.dims and "lon" in ds.coords:
+        ns = ds.sizes["site"]
+        if r.get("site_grid") and ns > 1:
+            nlon = 2 if ns % 2 == 0 else ns
+            lon = float(r.get("lon0", 150.0)) + 0.5 * (np.arange(ns) % nlon)
+            lat = float(r.get("lat0", -30.0)) + 0.5 * (np.arange(ns) // nlon)
+            if r.get("lat_desc"):
+                lat = lat.max() + lat.min() - lat      # rows listed north to south
+            if r.get("lon_desc"):
+                lon = lon.max() + lon.min() - lon
+            ds = ds.assign_coords(lon=("site", lon), lat=("site", lat))
+        lonlat = (np.asarray(ds["lon"].values, float), np.asarray(ds["lat"].values, float))
+        mode = r.get("lonlat", "coords")
+        if mode == "vars":
+            ds = ds.reset_coords(["lon", "lat"])
+        elif mode in ("absent", "absent_args"):
+            ds = ds.drop_vars(["lon", "lat"])
+            if mode == "absent_args":
+                kw = {"lons": lonlat[0].copy(), "lats": lonlat[1].copy()}
+            else:
+                lonlat = (np.zeros(ns), np.zeros(ns))
+    return ds, kw, lonlat
 
 
 def do_write(ds, fmt, path, kw):
@@ -176,6 +215,8 @@ def do_read(fmt, path, recipe):
     base = fmt.split("_")[0]
     if base == "swan":
         grid = any(k == "lat" for k, _ in recipe["dims"])
+        if recipe.get("read_default"):
+            return ws.read_swan(path)
         return ws.read_swan(path, as_site=not grid)
     if base == "octopus":
         return ws.read_octopus(path)
@@ -216,6 +257,18 @@ def features(st, history):
         f.append("time-not-first")
     if r.get("dir_first") and r.get("nd", 0) > 0:
         f.append("dir-before-freq")
+    if r.get("lonlat", "coords") != "coords":
+        f.append("lonlat-" + r["lonlat"])
+    if r.get("read_default"):
+        f.append("read-default")
+    if r.get("site_grid"):
+        f.append("sites-on-grid")
+    if r.get("lat_desc") and ("lat" in dims or r.get("site_grid")):
+        f.append("lat-descending")
+    if r.get("lon_desc") and ("lon" in dims or r.get("site_grid")):
+        f.append("lon-descending")
+    if r["dir"].get("north360"):
+        f.append("north-as-360")
     if st["fmt"].startswith("funwave") and r.get("nd", 0) > 1:
         from simkit.data import make_dir
 
@@ -248,11 +301,22 @@ def _positions(ds, recipe):
     return e.transpose(*(lead + [d for d in pos_dims if d in e.dims] + spec_dims)), lead, [d for d in pos_dims if d in e.dims], spec_dims
 
 
-def compare_roundtrip(fmt, recipe, exp, got, _depth=0):
+def compare_roundtrip(fmt, recipe, exp, got, _depth=0, lonlat=None):
     """None if `got` equals `exp` to the resolution of the format, else (class, detail)."""
+    import xarray as xr
+
     base = fmt.split("_")[0]
     if "efth" not in got:
         return "structure", f"no efth variable in what was read: {list(got.data_vars)}"
+    if lonlat is not None and "site" in exp.dims and "site" not in got.dims and "lat" in got.dims and "lon" in got.dims:
+        # a station file whose sites form a grid may legitimately come back gridded: each spectrum must then
+        # sit at the cell of the position it was written from
+        pts = list(zip(np.round(lonlat[0], 6), np.round(lonlat[1], 6)))
+        if len(set(pts)) != len(pts):
+            return None  # positions not unique: the gridded form cannot be matched back to sites
+        sel = got.sel(lon=xr.DataArray(lonlat[0], dims="site"), lat=xr.DataArray(lonlat[1], dims="site"), method="nearest")
+        got = sel.assign_coords(site=exp["site"].values) if "site" in exp.coords else sel
+        got = got.reset_coords([c for c in ("lon", "lat") if c in got.coords])
     ee, lead, pos, sdims = _positions(exp, recipe)
     ge = got["efth"]
     # ---- dims present ----------------------------------------------------------------------
@@ -276,11 +340,23 @@ def compare_roundtrip(fmt, recipe, exp, got, _depth=0):
                 # fewer times than written: what did come back must still be right (so that a different
                 # defect is not hidden behind a known 'missing times' finding)
                 k = ge.sizes[d]
-                sub = compare_roundtrip(fmt, recipe, exp.isel(time=slice(0, k)), got, _depth=1)
+                sub = compare_roundtrip(fmt, recipe, exp.isel(time=slice(0, k)), got, _depth=1, lonlat=lonlat)
                 if sub:
                     return sub[0] + "+count-time", f"{first[1]}; and among the times that did come back: {sub[1]}"
             return first
     ge = ge.transpose(*ee.dims)
+    # gridded data: positions are coordinates, not storage order - a reader may return the axes sorted
+    ctol0 = {"swan": 5.1e-7, "octopus": 5.1e-7}.get(base, 0.0)
+    if "lat" in ee.dims and "lon" in ee.dims:
+        for c in ("lat", "lon"):
+            gv, ev = np.asarray(got[c].values, float), np.asarray(exp[c].values, float)
+            if gv.shape != ev.shape or np.abs(np.sort(gv) - np.sort(ev)).max() > ctol0 + 1e-12:
+                return c, f"{c} differ: read {gv} written {ev}"
+            idx = [int(np.abs(gv - v).argmin()) for v in ev]
+            if sorted(idx) != list(range(len(ev))):
+                return c, f"{c} values not unique after the round trip: read {gv} written {ev}"
+            ge = ge.isel({c: idx})
+            got = got.isel({c: idx})
     # ---- coordinates ------------------------------------------------------------------------
     ftol = {"swan": 5.1e-6, "octopus": 5.1e-8, "funwave": 5.1e-6}.get(base, 0.0)
     fg, fe = np.asarray(got["freq"].values, float), np.asarray(exp["freq"].values, float)
@@ -306,11 +382,11 @@ def compare_roundtrip(fmt, recipe, exp, got, _depth=0):
         for c in ("lat", "lon"):
             if np.abs(np.asarray(got[c].values, float) - np.asarray(exp[c].values, float)).max() > ctol + 1e-12:
                 return c, f"{c} differ: read {got[c].values} written {exp[c].values}"
-    elif pos == ["site"] and "lon" in exp and base != "json" or (base == "octopus" and "lon" in exp):
-        for c in ("lon", "lat"):
+    elif lonlat is not None and (pos == ["site"] or base == "octopus"):
+        for c, b in (("lon", lonlat[0]), ("lat", lonlat[1])):
             if c not in got:
                 return c, f"{c} missing in what was read"
-            a, b = np.asarray(got[c].values, float).ravel(), np.asarray(exp[c].values, float).ravel()
+            a = np.asarray(got[c].values, float).ravel()
             if a.shape != b.shape or np.abs(a - b).max() > ctol + 1e-12:
                 return c, f"{c} of sites differ: read {a} written {b}"
     # ---- energy densities, spectrum by spectrum ---------------------------------------------
@@ -389,10 +465,10 @@ def execute(arg):
             if st["op"] == "write":
                 tags = hist.setdefault(st["file"], [])
                 existed = os.path.exists(path)
-                exp = expected_dataset(st["recipe"], st["fmt"])
+                exp, xkw, _ = expected_dataset(st["recipe"], st["fmt"])
                 fs.arm(st.get("fault"))
                 try:
-                    do_write(exp, st["fmt"], path, st["kw"])
+                    do_write(exp, st["fmt"], path, dict(st["kw"], **xkw))
                     acked = True
                 except Exception as exc:
                     acked = False
@@ -446,7 +522,7 @@ def execute(arg):
                 wi, h = model[st["file"]]
                 w = plan["steps"][wi]
                 fs.short_reads = bool(st.get("short_reads"))
-                exp = expected_dataset(w["recipe"], w["fmt"])
+                exp, _, lonlat = expected_dataset(w["recipe"], w["fmt"])
                 sim.count("reads")
                 base = w["fmt"].split("_")[0]
                 cause = features(w, h)
@@ -458,7 +534,7 @@ def execute(arg):
                     continue
                 finally:
                     fs.short_reads = False
-                d = compare_roundtrip(w["fmt"], w["recipe"], exp, got)
+                d = compare_roundtrip(w["fmt"], w["recipe"], exp, got, lonlat=lonlat)
                 if d:
                     viol.append({"property": PROPERTY, "signature": f"C11/roundtrip/{base}/{cause}/{d[0]}", "step": i,
                                  "detail": f"step {i}: read of {st['file']} after acknowledged {w['fmt']} write of {D.describe(w['recipe'])} kw={w['kw']} history={h}: {d[1]}"[:900]})
@@ -536,6 +612,12 @@ def simplify(plan):
             variant(lambda s: s.update(fmt=s["fmt"][:-3], file=s["file"][:-3]))
         variant(lambda s: s["recipe"]["dir"].update(order="asc"))
         variant(lambda s: s["recipe"].pop("dir_first", None))
+        variant(lambda s: s["recipe"].pop("lonlat", None))
+        variant(lambda s: s["recipe"].pop("read_default", None))
+        variant(lambda s: s["recipe"].pop("site_grid", None))
+        variant(lambda s: s["recipe"].pop("lat_desc", None))
+        variant(lambda s: s["recipe"].pop("lon_desc", None))
+        variant(lambda s: s["recipe"]["dir"].pop("north360", None))
         variant(lambda s: s["recipe"]["dir"].update(dir0=0.0))
         variant(lambda s: s["recipe"]["data"].update(zero_at=-1))
         variant(lambda s: s["recipe"]["data"].update(nan_at=-1))
